@@ -27,13 +27,19 @@ VARIABLES l, rn, skip, drift, nops, cov
 tvars == <<l, rn, skip, drift, nops, cov, pc, loc, fs, clock, nino, aux, last>>
 
 \* (the stacked model has a plain write cache: runs whose write cache is sharded are not attempted)
-Modeled(e) == ~e.world /\ (IF FrontKind = "stack" THEN e.api \in {"get", "touch", "ensure"} /\ ~rn.wsharded ELSE e.api \in {"get", "touch", "set", "put"})
+EndsWith(str, t) == Len(str) >= Len(t) /\ SubSeq(str, Len(str) - Len(t) + 1, Len(str)) = t
+\* (stacked writes are followed when the value is staged in the driver's SRC directory, as the model assumes)
+StagedInSrc(e) == e.api \in {"set", "put", "set_tf", "put_tf"} /\ Has(e, "srcdir") /\ EndsWith(e.srcdir, "/SRC")
+\* (hk: the kind of handle the operation goes through; a participant that plants a read-only level through a plain handle is not followed)
+Modeled(e) == ~e.world /\ (Has(e, "hk") => e.hk = FrontKind) /\
+              (IF FrontKind = "stack" THEN (e.api \in {"get", "touch", "ensure"} \/ StagedInSrc(e)) /\ ~rn.wsharded
+                            ELSE e.api \in {"get", "touch", "set", "put"})
 \* an injected failure inside std::io::copy's private probing (fstat of source / destination): the fallback it takes is the
 \* standard library's business, the rest of that operation is not followed
-UnmodelledFault(e) == Has(e, "inj") /\ e.p \in DOMAIN pc /\ pc[e.p] \in {"ef1", "ef2"}
+UnmodelledFault(e) == Has(e, "inj") /\ e.p \in DOMAIN pc /\ pc[e.p] \in {"ef1", "ef2", "ms2"}
 
 \* Does recorded call e have the shape of the model's call c0?
-SamePath(a, b, lbl) == a.d = b.d /\ (a.n = b.n \/ (IsTempDir(b.d) /\ lbl \in {"a3", "ec"}))
+SamePath(a, b, lbl) == a.d = b.d /\ (a.n = b.n \/ ((IsTempDir(b.d) \/ b.d = SrcDir) /\ lbl \in {"a3", "ec"}))
 FlagsOK(e, c0) == Has(e, "flags") /\ e.flags = c0.flags
 Matches(e, c0, lbl) ==
     /\ e.call = c0.call
@@ -109,9 +115,11 @@ CallEvent(e) ==
     LET p == e.p IN
     IF Modeled(e) /\ rn.front = FrontKind THEN
         /\ skip' = Put(skip, p, FALSE)
-        /\ pc' = Put(pc, p, IF e.api \in {"get", "ensure"} THEN "g1" ELSE IF e.api = "touch" THEN "t1" ELSE IF FrontKind = "plain" THEN "a1" ELSE "s0")
+        /\ pc' = Put(pc, p, IF e.api \in {"get", "ensure"} THEN "g1" ELSE IF e.api = "touch" THEN "t1"
+                             ELSE IF FrontKind = "stack" THEN "a3" ELSE IF FrontKind = "plain" THEN "a1" ELSE "s0")
         /\ loc' = Put(loc, p, [IdleLoc EXCEPT !.opi = e.opi, !.cap = rn.cap, !.bound = (FrontKind # "sharded"), !.h1 = Root,
                                  !.h2 = IF FrontKind = "stack" /\ rn.hasro THEN RORoot ELSE Root, !.est = [bd \in BaseDirs |-> 0],
+                                 !.td = IF FrontKind = "stack" /\ e.api \in {"set", "put", "set_tf", "put_tf"} THEN SrcDir ELSE TDof(Root),
                                  !.op = [api |-> e.api, key |-> e.key, val |-> IF Has(e, "val") THEN e.val ELSE "",
                                          chunks |-> IF Has(e, "chunks") THEN e.chunks ELSE 1]])
     ELSE /\ skip' = Put(skip, p, TRUE) /\ UNCHANGED <<pc, loc>>
